@@ -281,6 +281,9 @@ func TestChild(t *testing.T) {
 		if i%200 < nChildren {
 			col.Flush()
 		}
+		if col.Problems() >= 8 {
+			break // enough witnesses from this child
+		}
 	}
 	col.Flush()
 }
@@ -486,7 +489,14 @@ func runCase(run sink, prun *ev.Run, i int, caseID string) {
 	}
 	// quiescence: server has answered everything and the client has read it
 	deadline := time.Now().Add(30 * time.Second)
-	for !(srv.idle() && srv.st.Drained()) && !srv.violated.Load() {
+	for nPoll := 0; !(srv.idle() && srv.st.Drained()) && !srv.violated.Load(); nPoll++ {
+		if nPoll%20 == 19 {
+			// a client that recorded an error has stopped reading: the script will never drain,
+			// and the verdicts below (errors on a conformant server) say so
+			if st, err := c.Status(); err == nil && len(st.ReadErrs)+len(st.SendErrs) > 0 {
+				break
+			}
+		}
 		if time.Now().After(deadline) {
 			run.Inconclusive(caseID + ": server script did not drain")
 			break
